@@ -12,7 +12,7 @@ import (
 func init() {
 	register(&propInfo{
 		ID:          "C13",
-		Explanation: "Path analysis of every reflective call into user code in the library: (R13.1) each reflect.Value.Call/CallSlice lies in a function that, on every path to the call, has registered a deferred function literal which calls recover() directly, never re-panics, never type-asserts the recovered value unsafely, and — whenever the recovered value is non-nil, with no further condition — assigns a non-nil error to the function's error result, which is what the function returns; (R13.2) every caller of such a function tests that error and, when it is non-nil, emits an error reply and returns without reaching the success reply; (R13.3) user code is never invoked reflectively from any other place (no goroutine runs handler code outside that frame). (R13.5) nothing acquired before the user call (semaphore send/receive, Lock, WaitGroup.Add, atomic add) is released only after it in straight-line code of the recovering function. R13.2 also requires the value results of the protected call to be indexed only where its error is known nil. (R13.6) the HTTP client reads error replies in full. (R13.7) no pooled memory is used after it was handed back. (R13.8) the client re-sends only on the temporary-connection code. (R13.9) no library mutex stays locked on a return path; (R13.10) the recovering function makes no call through a function value not known to be non-nil. (R13.11) the recovering function does not unwrap the call's arguments or results (no user method runs while recovering).",
+		Explanation: "Path analysis of every reflective call into user code in the library: (R13.1) each reflect.Value.Call/CallSlice lies in a function that, on every path to the call, has registered a deferred function literal which calls recover() directly, never re-panics, never type-asserts the recovered value unsafely, and — whenever the recovered value is non-nil, with no further condition — assigns a non-nil error to the function's error result, which is what the function returns; (R13.2) every caller of such a function tests that error and, when it is non-nil, emits an error reply and returns without reaching the success reply; (R13.3) user code is never invoked reflectively from any other place (no goroutine runs handler code outside that frame). (R13.5) nothing acquired before the user call (semaphore send/receive, Lock, WaitGroup.Add, atomic add) is released only after it in straight-line code of the recovering function. R13.2 also requires the value results of the protected call to be indexed only where its error is known nil. (R13.6) the HTTP client reads error replies in full. (R13.7) no pooled memory is used after it was handed back. (R13.8) the client re-sends only on the temporary-connection code. (R13.9) no library mutex stays locked on a return path; (R13.10) the recovering function makes no call through a function value not known to be non-nil. (R13.11) the recovering function does not unwrap the call's arguments or results (no user method runs while recovering). (R13.12) every call frame reaches the dispatcher.",
 		NotDecided:  "Panics raised on goroutines the handler itself starts, panics in user-supplied param codecs / tracers / error marshalers (outside the property), and that other calls are unaffected in every schedule (follows from goroutine-per-call structure, not explored).",
 		Assumptions: []string{
 			"Go semantics: recover() only stops a panic when called directly by the deferred function",
@@ -73,6 +73,8 @@ func runC13(c *Ctx) {
 	c.recoverMakesNoUnguardedDynamicCall("R13.10")
 	c.ruleOpt("R13.11", "recovering does not go back into user code: the function that recovers a handler's panic (and what it calls) does not unwrap the call's arguments or results (reflect.Value.Interface and friends) — formatting them runs the user's String/Format methods, which can block on a lock the panicking handler still holds, or crash on data another goroutine is writing")
 	c.recoverTouchesNoArguments("R13.11")
+	c.rule("R13.12", "later calls behave as if the panic had not happened: every call frame reaches the dispatcher (no bookkeeping left behind by an earlier, panicked call can make the connection refuse a frame)")
+	c.everyCallFrameDispatched("R13.12")
 	c.rule("R13.8", "the reply to a panicking call is final: the client re-sends only on the wire's temporary-connection code (the panic reply carries code 0), so the handler is not run again and the caller gets its answer")
 	c.retryGateRule("R13.8")
 	c.ruleOpt("R13.7", "the error reply for a panicking call is not encoded into pooled memory that is handed back before it is written")
